@@ -1,6 +1,6 @@
-SPECIFICATION SpecStr
+SPECIFICATION SpecText
 CONSTANTS
-  Bug = ""
+  Bug = "DimPrintedWithoutUnit"
   N0 = 0
   N1 = 0
   N2 = 0
@@ -9,9 +9,9 @@ CONSTANTS
   MaxArgs = 0
   Fns = {}
   Rich = FALSE
-  TextLen = 4
-  Chars = {}
+  TextLen = 3
+  Chars = {49, 112, 116, 46}
   IntParts = {}
   Sample = 1
-INVARIANTS InvStrRoundTrip
+INVARIANTS InvRelex
 CHECK_DEADLOCK FALSE
